@@ -369,11 +369,31 @@ func byzVariantBlock(cl *cluster.Cluster, p *plan, view int, slot uint64, key tb
 // and blobs: the same message root as every honest partial, a foreign unsigned carrier.
 func byzantineDecidedBlobs(ctx context.Context, cl *cluster.Cluster, i int) {
 	p, n := cur, cl.Nodes[i]
-	if verifrt.Intn("a", 2) == 0 {
+	if verifrt.Intn("a", 4) == 0 {
 		return
 	}
 	vp, err := n.DutyDB.AwaitProposal(n.Ctx, p.propSlot)
 	if err != nil || ctx.Err() != nil || vp.Version != eth2spec.DataVersionDeneb || vp.Deneb == nil || vp.Deneb.Block == nil {
+		return
+	}
+	if verifrt.Intn("a", 2) == 1 {
+		// ... or its partial signature over the DECIDED block attached to a copy of that block with another body
+		// (same slot, proposer, parent root and state root; other graffiti) and the decided sidecars: not a valid
+		// partial signature for the object it travels with. It is sent a few times at growing seeded delays, so that it
+		// reaches nodes that have and nodes that have not yet verified the authentic block.
+		sp := signedDeneb(cl, p.propVal.Shares[i+1], vp.Deneb.Block, vp.Deneb.KZGProofs, vp.Deneb.Blobs)
+		blk, body := *vp.Deneb.Block, *vp.Deneb.Block.Body
+		copy(body.Graffiti[:], "not the agreed body")
+		blk.Body = &body
+		sp.Deneb.SignedBlock.Message = &blk
+		ps, err := core.NewPartialVersionedSignedProposal(sp, i+1)
+		if err != nil {
+			panic(err)
+		}
+		for k := 1 + verifrt.Intn("a", 4); k > 0 && ctx.Err() == nil; k-- { // a few times, at growing seeded delays
+			verifrt.Sleep(time.Duration(verifrt.Intn("a", 600)) * time.Millisecond)
+			inject(cl, i, "byz:proposer:decided-block-signature-on-another-body", []*pbv1.ParSigExMsg{parSigMsg(core.NewProposerDuty(p.propSlot), p.propVal.CorePK, ps)}, false)
+		}
 		return
 	}
 	proofs, blobs := denebSidecars(5+len(vp.Deneb.Blobs), p.propSlot) // the same number of blobs, other content
